@@ -6,6 +6,7 @@ use crate::checks::c04::{dangerous, good_join_accept};
 use crate::checks::{load_case, replay_exit};
 use crate::cmds;
 use crate::ctx::{Ctx, Tier, panic_site};
+use crate::adev::*;
 use crate::dev::*;
 use crate::explore::{self, System, V};
 use crate::refregion as rr;
@@ -118,6 +119,200 @@ impl<const PW: u8, const GAIN: i8> Sys<PW, GAIN> {
     }
 }
 
+fn join_ok_frame(region: &str, kind: u8) -> Frame {
+    match kind {
+        0 => good_join_accept(region, false),
+        1 => good_join_accept(region, true),
+        2 => {
+            let mut b = vec![0u8; 15];
+            b.push(if rr::is_fixed(region) { 1 } else { 0 });
+            Frame::JoinAccept { join_nonce: 6, net_id: 0x13, devaddr: DEVADDR, dl_settings: 0, rx_delay: 1, cflist: Some(b), tamper: Tamper::None, trunc: 0 }
+        }
+        _ => {
+            let f = cmds::freqs(region);
+            let mut b = vec![];
+            for x in [f[1], f[5], f[6], 100, f[3]] {
+                b.extend(cmds::freq_bytes(x));
+            }
+            b.push(0);
+            Frame::JoinAccept { join_nonce: 8, net_id: 0x13, devaddr: DEVADDR, dl_settings: 0, rx_delay: 1, cflist: Some(b), tamper: Tamper::None, trunc: 0 }
+        }
+    }
+}
+
+fn enabled_events(region: &str, joined: bool) -> Vec<CEv> {
+    let fixed = rr::is_fixed(region);
+    let ndraw = if fixed { 64 } else { 16 };
+    let mut v = vec![];
+    if !joined {
+        for d in 0..ndraw {
+            v.push(CEv::JoinTry { draw: d });
+        }
+        for k in 0..4 {
+            v.push(CEv::JoinOk { kind: k });
+        }
+        if fixed {
+            v.push(CEv::JoinRun { attempts: 80 });
+        }
+        return v;
+    }
+    for d in 0..ndraw {
+        v.push(CEv::Up { draw: d });
+    }
+    for (l, b) in dangerous(region) {
+        v.push(CEv::Cmd { label: l, bytes: b });
+    }
+    // TX power commands
+    for txp in [0u8, 1, 5, 7, 10, 14] {
+        v.push(CEv::Cmd { label: format!("adr-txpower{txp}"), bytes: cmds::link_adr(15, txp, 0, 6, 1, false).bytes });
+    }
+    for d in defined_drs(region) {
+        v.push(CEv::SetDr(d));
+    }
+    v.push(CEv::JoinOk { kind: 3 });
+    v
+}
+
+fn canon_key(mut s: VerifMac) -> VerifMac {
+    if let VerifMacState::Joined(ref mut j) = s.state {
+        j.fcnt_up = 0;
+        j.fcnt_down = None;
+        j.adr_ack_cnt = 0;
+        j.pending = [0; 15];
+        j.pending_len = 0;
+        j.nwkskey = [0; 16];
+        j.appskey = [0; 16];
+        j.confirmed = false;
+    }
+    if let VerifMacState::Otaa { ref mut dev_nonce } = s.state {
+        *dev_nonce = 0;
+    }
+    s.rx1_delay = 0;
+    s.rx2_frequency = None;
+    s.rx2_data_rate = None;
+    s
+}
+
+/// Checks on the snapshot after a command event (shared by both front-ends).
+fn post_checks(region: &str, ev: &CEv, power_before: Option<u8>, after: &VerifMac, out: &mut Vec<V>) {
+    // a channel the network removed (NewChannelReq with frequency 0 on a non-default channel) is no longer a
+    // defined channel: whatever the mask says later, it must not come back
+    if let CEv::Cmd { bytes, .. } = ev
+        && !rr::is_fixed(region)
+        && bytes.len() == 6
+        && bytes[0] == 0x07
+        && bytes[2..5] == [0, 0, 0]
+    {
+        let idx = bytes[1] as usize;
+        let nj = rr::default_channels(region).len();
+        if idx >= nj && idx < 16 && after.region.channels[idx].is_some() {
+            out.push(V {
+                sig: "C09|removed-channel-still-defined".into(),
+                what: format!("{region}: NewChannelReq removed channel {idx}, the plan still holds {:?}", after.region.channels[idx]),
+            });
+        }
+    }
+    // a LinkADRReq whose TXPower field is 15 ("keep") must leave the commanded level alone
+    let keeps_power = matches!(ev, CEv::Cmd { bytes, .. } if bytes.len() >= 5 && bytes.len() % 5 == 0 && bytes.chunks(5).all(|c| c[0] == 0x03 && c[1] & 0x0F == 0x0F));
+    if keeps_power {
+        let power_after = after.tx_power;
+        if power_after != power_before {
+            out.push(V {
+                sig: "C09|power|commanded-level-lost".into(),
+                what: format!("{region}: a LinkADRReq with TXPower 15 (keep) changed the commanded level from {power_before:?} to {power_after:?}: later uplinks are no longer bounded by what the network last commanded"),
+            });
+        }
+    }
+}
+
+/// The same alphabet on the async front-end (optionally with Class C enabled): the TxConfig its radio is handed
+/// goes through `async_device::Device`'s own wiring of the board constants and of the transmit call.
+pub struct ASys<const PW: u8, const GAIN: i8> {
+    core: ACore<PW, GAIN>,
+    region: String,
+    outcome: String,
+}
+
+impl<const PW: u8, const GAIN: i8> ASys<PW, GAIN> {
+    pub fn new(cfg: &DevCfg, class_c: bool) -> Self {
+        ASys { core: ACore::new(cfg, class_c), region: cfg.region.clone(), outcome: String::new() }
+    }
+}
+
+impl<const PW: u8, const GAIN: i8> System for ASys<PW, GAIN> {
+    type Ev = CEv;
+    type Key = (VerifMac, bool);
+
+    fn enabled(&self) -> Vec<CEv> {
+        enabled_events(&self.region, matches!(self.core.snap().state, VerifMacState::Joined(_)))
+    }
+
+    fn step(&mut self, ev: &CEv) -> Vec<V> {
+        let region = self.region.clone();
+        let mut out = vec![];
+        let send = |rx1: Option<Frame>| AEv::Send { confirmed: false, port: 1, len: 1, script: Script { rx1, ..Default::default() } };
+        let evs: Vec<AEv> = match ev {
+            CEv::Up { draw } => vec![AEv::Rng(vec![*draw]), send(None)],
+            CEv::JoinTry { draw } => vec![AEv::Rng(vec![0x4242, *draw]), AEv::Join(Script::default())],
+            CEv::JoinRun { attempts } => {
+                let mut v = vec![];
+                for i in 0..*attempts {
+                    v.push(AEv::Rng(vec![0x4242 + i, i.wrapping_mul(7)]));
+                    v.push(AEv::Join(Script::default()));
+                }
+                v
+            }
+            CEv::JoinOk { kind } => vec![AEv::Join(Script { rx1: Some(join_ok_frame(&region, *kind)), ..Default::default() })],
+            CEv::Cmd { bytes, .. } => vec![send(Some(Frame::Down { fcnt: Fcnt::Rel(1), confirmed: false, ack: false, fopts: bytes.clone(), port: None, payload: vec![], tamper: Tamper::None }))],
+            CEv::SetDr(d) => vec![AEv::SetDr(*d)],
+        };
+        let power_before = self.core.snap().tx_power;
+        for e in evs {
+            let Some(m) = self.core.apply(&e) else { break };
+            if let AResp::Panic(p) = &m.resp {
+                let sig = if p.contains("VERIF-HANG") {
+                    format!("C09|selection-does-not-terminate|{}", crate::checks::c04::hang_class(&region, &m.before))
+                } else {
+                    format!("C09|panic|{}", panic_site(p))
+                };
+                out.push(V { sig, what: p.clone() });
+            }
+            // An async call is a whole transaction: when it delivers a downlink, the snapshot after the call already
+            // holds what that downlink commanded, not the plan the uplink was sent under. For those events the
+            // membership of the frequency in the *snapshot's* plan and mask is not judged here (the uplink selection
+            // from the same state is judged by the `Up` events, whose transactions change nothing after the
+            // transmission); band, data rate, bandwidth, regional channel table and power are judged always.
+            let delivers = matches!(ev, CEv::Cmd { .. } | CEv::JoinOk { .. });
+            for op in &m.ops {
+                if let AOp::Tx { pw, rf, bytes, .. } = op {
+                    let join = bytes.len() == 23 && bytes[0] >> 5 == 0;
+                    let vs = judge_tx(&region, PW, GAIN, join, *pw, rf, &m.before, &m.after);
+                    out.extend(vs.into_iter().filter(|v| {
+                        !(delivers && (v.sig.starts_with("C09|disabled-channel") || (v.sig.starts_with("C09|not-a-channel") && !rr::is_fixed(&region))))
+                    }));
+                }
+            }
+            self.outcome = short_aresp(&m.resp);
+        }
+        if self.core.dead.is_none() {
+            post_checks(&region, ev, power_before, &self.core.snap(), &mut out);
+        }
+        out
+    }
+
+    fn key(&self) -> Self::Key {
+        (canon_key(self.core.snap()), self.core.dev.verif_class_c())
+    }
+
+    fn alive(&self) -> bool {
+        self.core.dead.is_none()
+    }
+
+    fn outcome(&self) -> String {
+        self.outcome.clone()
+    }
+}
+
 fn defined_drs(region: &str) -> Vec<u8> {
     (0..8).filter(|d| rr::dr(region, *d).is_some() && !(region == "EU868" && *d == 6)).collect()
 }
@@ -127,37 +322,7 @@ impl<const PW: u8, const GAIN: i8> System for Sys<PW, GAIN> {
     type Key = (VerifMac, VerifNbState);
 
     fn enabled(&self) -> Vec<CEv> {
-        let joined = self.core.joined_session().is_some();
-        let fixed = rr::is_fixed(&self.region);
-        let ndraw = if fixed { 64 } else { 16 };
-        let mut v = vec![];
-        if !joined {
-            for d in 0..ndraw {
-                v.push(CEv::JoinTry { draw: d });
-            }
-            for k in 0..4 {
-                v.push(CEv::JoinOk { kind: k });
-            }
-            if fixed {
-                v.push(CEv::JoinRun { attempts: 80 });
-            }
-            return v;
-        }
-        for d in 0..ndraw {
-            v.push(CEv::Up { draw: d });
-        }
-        for (l, b) in dangerous(&self.region) {
-            v.push(CEv::Cmd { label: l, bytes: b });
-        }
-        // TX power commands
-        for txp in [0u8, 1, 5, 7, 10, 14] {
-            v.push(CEv::Cmd { label: format!("adr-txpower{txp}"), bytes: cmds::link_adr(15, txp, 0, 6, 1, false).bytes });
-        }
-        for d in defined_drs(&self.region) {
-            v.push(CEv::SetDr(d));
-        }
-        v.push(CEv::JoinOk { kind: 3 });
-        v
+        enabled_events(&self.region, self.core.joined_session().is_some())
     }
 
     fn step(&mut self, ev: &CEv) -> Vec<V> {
@@ -175,24 +340,7 @@ impl<const PW: u8, const GAIN: i8> System for Sys<PW, GAIN> {
                 v
             }
             CEv::JoinOk { kind } => {
-                let f = match kind {
-                    0 => good_join_accept(&region, false),
-                    1 => good_join_accept(&region, true),
-                    2 => {
-                        let mut b = vec![0u8; 15];
-                        b.push(if rr::is_fixed(&region) { 1 } else { 0 });
-                        Frame::JoinAccept { join_nonce: 6, net_id: 0x13, devaddr: DEVADDR, dl_settings: 0, rx_delay: 1, cflist: Some(b), tamper: Tamper::None, trunc: 0 }
-                    }
-                    _ => {
-                        let f = cmds::freqs(&region);
-                        let mut b = vec![];
-                        for x in [f[1], f[5], f[6], 100, f[3]] {
-                            b.extend(cmds::freq_bytes(x));
-                        }
-                        b.push(0);
-                        Frame::JoinAccept { join_nonce: 8, net_id: 0x13, devaddr: DEVADDR, dl_settings: 0, rx_delay: 1, cflist: Some(b), tamper: Tamper::None, trunc: 0 }
-                    }
-                };
+                let f = join_ok_frame(&region, *kind);
                 vec![Ev::JoinCycle { rx1: Some(f), rx2: None }]
             }
             CEv::Cmd { bytes, .. } => vec![Ev::Cycle {
@@ -204,8 +352,6 @@ impl<const PW: u8, const GAIN: i8> System for Sys<PW, GAIN> {
             }],
             CEv::SetDr(d) => vec![Ev::SetDr(*d)],
         };
-        // a LinkADRReq whose TXPower field is 15 ("keep") must leave the commanded level alone
-        let keeps_power = matches!(ev, CEv::Cmd { bytes, .. } if bytes.len() >= 5 && bytes.len() % 5 == 0 && bytes.chunks(5).all(|c| c[0] == 0x03 && c[1] & 0x0F == 0x0F));
         let power_before = self.core.snap().tx_power;
         for e in evs {
             for m in self.core.apply(&e) {
@@ -226,55 +372,14 @@ impl<const PW: u8, const GAIN: i8> System for Sys<PW, GAIN> {
                 self.outcome = short_resp(&m.resp);
             }
         }
-        // a channel the network removed (NewChannelReq with frequency 0 on a non-default channel) is no longer a
-        // defined channel: whatever the mask says later, it must not come back
-        if let CEv::Cmd { bytes, .. } = ev
-            && !rr::is_fixed(&region)
-            && bytes.len() == 6
-            && bytes[0] == 0x07
-            && bytes[2..5] == [0, 0, 0]
-            && self.core.dead.is_none()
-        {
-            let idx = bytes[1] as usize;
-            let nj = rr::default_channels(&region).len();
-            if idx >= nj && idx < 16 && self.core.snap().region.channels[idx].is_some() {
-                out.push(V {
-                    sig: "C09|removed-channel-still-defined".into(),
-                    what: format!("{region}: NewChannelReq removed channel {idx}, the plan still holds {:?}", self.core.snap().region.channels[idx]),
-                });
-            }
-        }
-        if keeps_power && self.core.dead.is_none() {
-            let power_after = self.core.snap().tx_power;
-            if power_after != power_before {
-                out.push(V {
-                    sig: "C09|power|commanded-level-lost".into(),
-                    what: format!("{region}: a LinkADRReq with TXPower 15 (keep) changed the commanded level from {power_before:?} to {power_after:?}: later uplinks are no longer bounded by what the network last commanded"),
-                });
-            }
+        if self.core.dead.is_none() {
+            post_checks(&region, ev, power_before, &self.core.snap(), &mut out);
         }
         out
     }
 
     fn key(&self) -> Self::Key {
-        let mut s = self.core.snap();
-        if let VerifMacState::Joined(ref mut j) = s.state {
-            j.fcnt_up = 0;
-            j.fcnt_down = None;
-            j.adr_ack_cnt = 0;
-            j.pending = [0; 15];
-            j.pending_len = 0;
-            j.nwkskey = [0; 16];
-            j.appskey = [0; 16];
-            j.confirmed = false;
-        }
-        if let VerifMacState::Otaa { ref mut dev_nonce } = s.state {
-            *dev_nonce = 0;
-        }
-        s.rx1_delay = 0;
-        s.rx2_frequency = None;
-        s.rx2_data_rate = None;
-        (s, self.core.st())
+        (canon_key(self.core.snap()), self.core.st())
     }
 
     fn alive(&self) -> bool {
@@ -290,6 +395,9 @@ impl<const PW: u8, const GAIN: i8> System for Sys<PW, GAIN> {
 pub struct RunCfg {
     pub board: (u8, i8),
     pub dev: DevCfg,
+    /// "nb" (default), "async", "async-c"
+    #[serde(default)]
+    pub front: String,
 }
 
 macro_rules! with_board {
@@ -304,18 +412,26 @@ macro_rules! with_board {
     };
 }
 
-fn bfs_board<const PW: u8, const GAIN: i8>(ctx: &Ctx, cj: &Value, dev: &DevCfg, depth: usize) -> explore::Stats {
-    explore::bfs(ctx, cj, &|| Sys::<PW, GAIN>::new(dev), depth, 400_000)
+fn bfs_board<const PW: u8, const GAIN: i8>(ctx: &Ctx, cj: &Value, dev: &DevCfg, front: &str, depth: usize) -> explore::Stats {
+    match front {
+        "async" => explore::bfs(ctx, cj, &|| ASys::<PW, GAIN>::new(dev, false), depth, 400_000),
+        "async-c" => explore::bfs(ctx, cj, &|| ASys::<PW, GAIN>::new(dev, true), depth, 400_000),
+        _ => explore::bfs(ctx, cj, &|| Sys::<PW, GAIN>::new(dev), depth, 400_000),
+    }
 }
 
-fn replay_board<const PW: u8, const GAIN: i8>(dev: &DevCfg, hist: &[CEv]) -> Vec<String> {
-    explore::replay(&|| Sys::<PW, GAIN>::new(dev), hist)
+fn replay_board<const PW: u8, const GAIN: i8>(dev: &DevCfg, front: &str, hist: &[CEv]) -> Vec<String> {
+    match front {
+        "async" => explore::replay(&|| ASys::<PW, GAIN>::new(dev, false), hist),
+        "async-c" => explore::replay(&|| ASys::<PW, GAIN>::new(dev, true), hist),
+        _ => explore::replay(&|| Sys::<PW, GAIN>::new(dev), hist),
+    }
 }
 
 fn replay_case(c: &Value) -> Vec<String> {
     let rc: RunCfg = serde_json::from_value(c["cfg"].clone()).expect("cfg");
     let hist: Vec<CEv> = serde_json::from_value(c["history"].clone()).expect("history");
-    with_board!(rc.board, replay_board, &rc.dev, &hist)
+    with_board!(rc.board, replay_board, &rc.dev, &rc.front, &hist)
 }
 
 pub fn run(tier: Tier, replay: Option<&str>) {
@@ -335,12 +451,14 @@ pub fn run(tier: Tier, replay: Option<&str>) {
                 for bias in biases {
                     let mut dev = if otaa { DevCfg::otaa(r) } else { DevCfg::abp(r) };
                     dev.bias = bias;
-                    runs.push(RunCfg { board: *b, dev: dev.clone() });
+                    runs.push(RunCfg { board: *b, dev: dev.clone(), front: "nb".into() });
+                    // the async front-end wires the board constants and the transmit call itself
+                    runs.push(RunCfg { board: *b, dev: dev.clone(), front: if otaa { "async-c" } else { "async" }.into() });
                     if !otaa {
                         // ADR back-off inside the search: counter pre-loaded just below a step
                         dev.adr_ack_cnt = Some(95);
                         dev.dr = Some(if rr::is_fixed(r) { if *r == "US915" { 4 } else { 6 } } else { 2 });
-                        runs.push(RunCfg { board: *b, dev });
+                        runs.push(RunCfg { board: *b, dev, front: "nb".into() });
                     }
                 }
             }
@@ -352,7 +470,7 @@ pub fn run(tier: Tier, replay: Option<&str>) {
     let mut outcomes: std::collections::BTreeMap<String, u64> = Default::default();
     for rc in &runs {
         let cj = serde_json::to_value(rc).unwrap();
-        let st = with_board!(rc.board, bfs_board, &ctx, &cj, &rc.dev, depth);
+        let st = with_board!(rc.board, bfs_board, &ctx, &cj, &rc.dev, &rc.front, depth);
         states += st.states;
         transitions += st.transitions;
         capped |= st.capped;
@@ -366,7 +484,7 @@ pub fn run(tier: Tier, replay: Option<&str>) {
     let mut table_cases = 0u64;
     let mut table_effective = 0u64;
     for r in regions.iter().filter(|r| rr::is_fixed(r)) {
-        let rc = RunCfg { board: (14, 0), dev: DevCfg::abp(r) };
+        let rc = RunCfg { board: (14, 0), dev: DevCfg::abp(r), front: "nb".into() };
         let cj = serde_json::to_value(&rc).unwrap();
         for ch in 0..72usize {
             // (the stack keeps at least two 125 kHz channels: channel k is paired with the one 32 above it.) One
@@ -418,7 +536,7 @@ pub fn run(tier: Tier, replay: Option<&str>) {
         "samples": [{"cfg": serde_json::to_value(&runs[0]).unwrap(), "history": [serde_json::to_value(CEv::Cmd { label: "adr-ch3-only".into(), bytes: cmds::link_adr(15, 15, 8, 0, 1, false).bytes }).unwrap(), serde_json::to_value(CEv::Up { draw: 3 }).unwrap()]}],
         "evaluations": ctx.evals(),
         "distinct_nontrivial": states,
-        "rule": "BFS over channel-plan histories on the real nb device for every region x board (radio max power, antenna gain) x {ABP, OTAA with join-bias settings, ADR back-off pre-loaded}; in every reached state the next uplink / join attempt is expanded once per first RNG draw (0..63 for 72-channel plans, 0..15 for dynamic plans, fair tail afterwards); other events: LinkADRReq (mask / data rate / TX power), NewChannelReq create/delete, DlChannelReq, JoinAccepts with plain / full / minimal / out-of-band CFLists, set_datarate for every region-defined rate. 72-channel plans additionally: each of the 72 masks that leave one channel (plus, for 125 kHz channels, the channel 32 above it) enabled, installed by LinkADRReq downlinks, then an uplink for every first RNG draw 0..63. Every TxConfig handed to the radio is judged against band, channel plan + mask snapshot, regional data-rate table and the power bound",
+        "rule": "BFS over channel-plan histories on the real nb and async (ABP: Class A, OTAA: Class C enabled) devices for every region x board (radio max power, antenna gain) x {ABP, OTAA with join-bias settings, ADR back-off pre-loaded}; in every reached state the next uplink / join attempt is expanded once per first RNG draw (0..63 for 72-channel plans, 0..15 for dynamic plans, fair tail afterwards); other events: LinkADRReq (mask / data rate / TX power), NewChannelReq create/delete, DlChannelReq, JoinAccepts with plain / full / minimal / out-of-band CFLists, set_datarate for every region-defined rate. 72-channel plans additionally: each of the 72 masks that leave one channel (plus, for 125 kHz channels, the channel 32 above it) enabled, installed by LinkADRReq downlinks, then an uplink for every first RNG draw 0..63. Every TxConfig handed to the radio is judged against band, channel plan + mask snapshot, regional data-rate table and the power bound",
         "depth": depth,
         "boards": boards,
         "configurations": runs.len(),
@@ -431,7 +549,7 @@ pub fn run(tier: Tier, replay: Option<&str>) {
         "model_checking",
         coverage,
         vec![
-            "channel selection and power adjustment live in the shared MAC/region code; the nb front-end is explored (the async front-end hands the same TxConfig to its radio)".into(),
+            "both front-ends are explored with the same alphabet (the TxConfig judged is the argument of the radio's transmit call)".into(),
             "regional maximum EIRP: the most permissive value of refregion's set is used".into(),
             "the channel mask is read right after the call that transmitted (the stack may re-enable default channels when none is usable)".into(),
         ],
